@@ -115,7 +115,7 @@ ilu_dpivotL(
     pivmax = -1.0;
     pivptr = nsupc;
     diag = SLU_EMPTY;
-    old_pivptr = nsupc;
+    old_pivptr = SLU_EMPTY;
     ptr0 = SLU_EMPTY;
     for (isub = nsupc; isub < nsupr; ++isub) {
         if (marker[lsub_ptr[isub]] > jcol)
@@ -188,6 +188,7 @@ ilu_dpivotL(
 	thresh = u * pivmax;
 
 	/* Choose appropriate pivotal element by our policy. */
+	if ( *usepr && old_pivptr == SLU_EMPTY ) *usepr = 0; /* remembered row not in this column */
 	if ( *usepr ) {
 	    switch (milu) {
 		case SMILU_1:
